@@ -12,7 +12,7 @@ import threading
 
 from .parser import (ClassDecl, FnDecl, ModelCompileError, ModelUnsupported, Node, parse)
 
-ADDR = "[MEMADDR]"
+ADDR = "0x55aa00c0ffee"      # same shape and length as a heap address printed by the implementation; norm() masks both
 FRAMES_MAX = 64
 RANGE_CACHE = 8
 ISIZE_MAX = (1 << 63) - 1
